@@ -16,6 +16,10 @@ Three parts, every generated case goes through all of them:
   LAYERS (stream C15layers): the same oracle with the indent string given through the layers of a configuration (call
     options, global entry of the type `markup`, global entry of the syntax), expand(abbr, config, global_config) and
     expand(abbr, Config(config, global_config)); the precedence is restated in this file (effective_config).
+  ROUTES (stream C15routes): the same oracle on the two-step interface -- the tree of an abbreviation obtained once
+    (markup_abbreviation / emmet.markup.parse / parse_markup_abbreviation + markup_abbreviation) and written SEVERAL times
+    (stringify_markup / emmet.markup.stringify / the formatter functions) as haml, pug, slim and html, with one-step calls
+    (expand / expand_markup with a Config object) in between; every writing must show the denoted tree.
   REPLAYS: a reported input is re-run in a fresh process; when it fails only after earlier calls of the stream, those
     calls are stored with it (settle_replays) and replay() performs them first.
 """
@@ -1093,6 +1097,328 @@ def layers_text(user, glob):
     return ', '.join(parts) or 'none sets it'
 
 
+# ---------------------------------------------------------------- routes: the two-step interface, one tree written several times
+# The package exports the two halves of expand() as its public interface (emmet/__init__.py: `markup_abbreviation`,
+# `stringify_markup`, `parse_markup_abbreviation`, `expand_markup`, `Config`; upstream Emmet documents the same pair as
+# `parseMarkup(abbr, config)` / `stringifyMarkup(tree, config)`): the caller gets the tree of the abbreviation and has it
+# written -- as often as he likes, in whatever syntax he likes.  The statement is about "the tree denoted by the
+# abbreviation": every writing of that tree, the first as well as any later one, in haml, pug, slim (lines) or html
+# (element tree), must show it; writing is an observation of the caller's tree, not a step that uses it up.  A case of
+# this stream is a SEQUENCE of calls on one abbreviation:
+#   parse  -- a tree is obtained: markup_abbreviation(abbr, Config) | emmet.markup.parse(abbr, Config) |
+#             parse_markup_abbreviation(abbr) handed to markup_abbreviation(tree0, Config)
+#   write  -- the current tree is written: stringify_markup(tree, Config) | emmet.markup.stringify(tree, Config) |
+#             the formatter of the syntax called directly (emmet.markup.format.haml/pug/slim/html(tree, Config))
+#   expand -- a one-step call in between: expand(abbr, Config object) | expand_markup(abbr, Config object)
+# each with one of up to three configurations of the case (syntax, indent string, sometimes one more output option),
+# given as the SAME Config object every time it is used in the case or as a fresh Config each time.  Every written
+# result is judged by the same oracle as the main stream (denoted lines; for an html writing the (depth, name) tree of
+# the denotation), and the tree read off the indentation of every haml/pug/slim writing is compared with the tree of
+# every html writing of the SAME tree object.
+ROUTES_ON = True
+PARSE_ROUTES = ['markup_abbreviation', 'markup.parse', 'parse_markup_abbreviation-then-markup_abbreviation']
+WRITERS = ['stringify_markup', 'markup.stringify', 'formatter-function']
+ENTRY_POINTS = ['expand', 'expand_markup']
+WRITE_SYNTAXES = SYNTAXES + ['html']
+# output options (besides the indent string) a configuration of this stream may carry: options of the writers only --
+# the tree is parsed under one configuration of the case and written under another, so nothing that acts when the
+# abbreviation is parsed/resolved is varied here
+ROUTE_EXTRA_OPTIONS = [{'output.newline': '\r\n'}, {'output.baseIndent': '  '}, {'output.compactBoolean': True},
+                       {'output.attributeQuotes': 'single'}, {'output.newline': '\n\n', 'output.baseIndent': '\t'}]
+
+
+def route_cfg(syntax, indent, extra=None):
+    o = {'output.indent': indent}
+    if syntax == 'html':
+        o['output.selfClosingStyle'] = 'xhtml'      # a self-closed leaf is written `<x />`: the tag parser's leaf criterion
+    else:
+        o.update(extra or {})
+    return {'syntax': syntax, 'options': o}
+
+
+def run_route(case):
+    """Performs the calls of one case in this process.  Returns one result per step: None for a parse step that
+    succeeded, ('ok', text) for a write/expand step, an error classification otherwise."""
+    import copy
+    import emmet
+    import emmet.markup
+    import emmet.markup.format
+    from common import time_limit, Hang
+    from markup_util import classify_exc, CALL_LIMIT_S
+    objs = {}
+    out = []
+    tree = None
+
+    def config_of(st):
+        i = st['config']
+        if st.get('object') == 'fresh':
+            return emmet.Config(copy.deepcopy(case['configs'][i]))
+        if i not in objs:
+            objs[i] = emmet.Config(copy.deepcopy(case['configs'][i]))
+        return objs[i]
+    for st in case['steps']:
+        try:
+            with time_limit(CALL_LIMIT_S):
+                cfg = config_of(st)
+                if st['op'] == 'parse':
+                    tree = None
+                    if st['how'] == 'markup_abbreviation':
+                        tree = emmet.markup_abbreviation(case['abbr'], cfg)
+                    elif st['how'] == 'markup.parse':
+                        tree = emmet.markup.parse(case['abbr'], cfg)
+                    else:
+                        tree = emmet.markup_abbreviation(emmet.parse_markup_abbreviation(case['abbr']), cfg)
+                    out.append(None)
+                elif st['op'] == 'write':
+                    if tree is None:
+                        out.append(('no-tree',))
+                    elif st['how'] == 'stringify_markup':
+                        out.append(('ok', emmet.stringify_markup(tree, cfg)))
+                    elif st['how'] == 'markup.stringify':
+                        out.append(('ok', emmet.markup.stringify(tree, cfg)))
+                    else:
+                        out.append(('ok', getattr(emmet.markup.format, case['configs'][st['config']]['syntax'])(tree, cfg)))
+                elif st['how'] == 'expand_markup':
+                    out.append(('ok', emmet.expand_markup(case['abbr'], cfg)))
+                else:
+                    out.append(('ok', emmet.expand(case['abbr'], cfg)))
+        except Hang:
+            out.append(('hang', CALL_LIMIT_S))
+        except Exception as e:  # noqa
+            out.append(classify_exc(e))
+    return out
+
+
+def step_text(case, k):
+    """`write #2 of tree #1 as slim (stringify_markup; the tree was written before as: pug)`"""
+    st = case['steps'][k]
+    syn = case['configs'][st['config']]['syntax']
+    if st['op'] != 'write':
+        return 'step %d: %s(abbr, Config) as %s' % (k + 1, st['how'], syn)
+    trees, before = 0, []
+    for j, s in enumerate(case['steps'][:k + 1]):
+        if s['op'] == 'parse':
+            trees += 1
+            before = []
+        elif s['op'] == 'write' and j < k:
+            before.append(case['configs'][s['config']]['syntax'])
+    return 'step %d: write #%d of tree #%d as %s (%s; %s)' % (
+        k + 1, len(before) + 1, trees, syn, st['how'],
+        'written before as: ' + ', '.join(before) if before else 'its first writing')
+
+
+def judge_route(case, results):
+    """Why the property fails on this sequence of calls, or None.  case['expect'][k] holds what step k must give:
+    {'lines': [...]} for haml/pug/slim, {'html': [[depth, name], ...]} for html."""
+    abbr = case['abbr']
+    trees = {}          # tree number -> [(step, syntax, (depth, name) list)]
+    tno = 0
+    for k, (st, r) in enumerate(zip(case['steps'], results)):
+        if st['op'] == 'parse':
+            tno += 1
+            if r is not None:
+                return '%s: the tree could not be obtained: %r' % (step_text(case, k), r)
+            continue
+        cfg = case['configs'][st['config']]
+        exp = case['expect'][k]
+        if r[0] != 'ok':
+            return '%s did not return a string: %r' % (step_text(case, k), r)
+        if cfg['syntax'] == 'html':
+            got, depth = g.html_preorder(r[1])
+            if depth != 0:
+                return '%s: unbalanced tags in the HTML output %r' % (step_text(case, k), r[1][:300])
+            if [tuple(x) for x in got] != [tuple(x) for x in exp['html']]:
+                return '%s: element tree of the HTML output %r differs from the tree denoted by the abbreviation %r' % (
+                    step_text(case, k), got[:12], [tuple(x) for x in exp['html']][:12])
+            if st['op'] == 'write':
+                trees.setdefault(tno, []).append((k, 'html', [tuple(x) for x in got]))
+            continue
+        bad = oracle(abbr, cfg, {'lines': exp['lines'], 'tree': False}, r)
+        if bad:
+            return '%s: %s -- output %r' % (step_text(case, k), bad, r[1][:300])
+        indent = cfg['options'].get('output.indent', '\t')
+        if st['op'] == 'write' and indent:
+            text = '\n'.join(r[1].split(line_break_of(cfg['options'])))
+            rec, err = recover_tree(text, cfg['syntax'], indent)
+            if err:
+                return '%s: cannot read the tree off the indentation: %s' % (step_text(case, k), err)
+            trees.setdefault(tno, []).append((k, cfg['syntax'], rec))
+    # last clause of the statement on ONE tree object: what its indent writings show is what its html writings show
+    for tno, ws in trees.items():
+        hs = [w for w in ws if w[1] == 'html']
+        for k, syn, rec in ws:
+            if syn != 'html':
+                for hk, _, htree in hs:
+                    if rec != htree:
+                        return '%s: tree read off the indentation %r differs from the tree of the HTML writing of the same tree object (step %d) %r' % (
+                            step_text(case, k), rec[:12], hk + 1, htree[:12])
+    return None
+
+
+def routes_key(case):
+    return 'C15routes:%s|%s|%s' % (case['abbr'], canon_cfg(case['configs']), canon_cfg(case['steps']))
+
+
+def route_expectations(case, tree):
+    exp = []
+    for st in case['steps']:
+        if st['op'] == 'parse':
+            exp.append(None)
+            continue
+        cfg = case['configs'][st['config']]
+        if cfg['syntax'] == 'html':
+            exp.append({'html': [list(x) for x in g.preorder(tree)]})
+        else:
+            exp.append({'lines': expected_lines(tree, cfg['syntax'], cfg['options']['output.indent'], 0, writer_of(cfg['options'], cfg['syntax']))})
+    case['expect'] = exp
+    return case
+
+
+def has_primary(tree):
+    for name, el, cs, kids in tree:
+        idv, classes = primary_of(el)
+        if idv is not None or classes or has_primary(kids):
+            return True
+    return False
+
+
+def gen_routes(ctx):
+    rng = ctx.rng
+    out = []
+
+    def add(abbr, tree, configs, steps, bucket):
+        case = route_expectations({'abbr': abbr, 'configs': configs, 'steps': steps}, tree)
+        out.append(case)
+        ctx.cover('routes:gen:' + bucket)
+        n_on_tree, prev, most = 0, None, 0
+        for st in steps:
+            syn = configs[st['config']]['syntax']
+            ctx.cover('routes:%s:%s' % (st['op'], st['how']))
+            ctx.cover('routes:config-object:' + ('a fresh Config for the call' if st.get('object') == 'fresh' else 'one Config object for all its uses in the case'))
+            if st['op'] == 'parse':
+                n_on_tree, prev = 0, None
+                ctx.cover('routes:tree-parsed-under:' + syn)
+            elif st['op'] == 'write':
+                n_on_tree += 1
+                most = max(most, n_on_tree)
+                ctx.cover('routes:written-as:' + syn)
+                if prev is not None:
+                    ctx.cover('routes:consecutive-writings-of-one-tree:%s->%s' % (prev[0], syn))
+                    ctx.cover('routes:later-writing-indent-string:' + ('same as the one before' if prev[1] == configs[st['config']]['options']['output.indent'] else 'different'))
+                prev = (syn, configs[st['config']]['options']['output.indent'])
+        ctx.cover('routes:writings-of-one-tree:%d' % most)
+        if has_primary(tree):
+            ctx.cover('routes:tree-with-id-or-class')
+        if most >= 2 and len(g.preorder(tree)) >= 2:
+            ctx.nontrivial(('routes', abbr, canon_cfg(configs), canon_cfg(steps)))
+
+    def E(name, **kw):
+        return g.El(name=name, **kw)
+    # A. fixed trees (ids, classes, a nameless div, a class attribute, other attributes, multi-line text, a self-closing
+    #    leaf, a repeated group): parsed under each of the four syntaxes, then EVERY ordered pair of writings
+    fixed = [
+        [(E('div', id='main', classes=['a', 'b']), '>'), (E('p', classes=['c']), '+'), (E('q', id='x', attrs=[('title', 't', '')]), '')],
+        [(E('ul', id='nav', classes=['menu']), '>'), (E('li', classes=['item'], repeat=2), '>'), (E(None, classes=['link'], text='go'), '')],
+        [(E('section', attrs=[('class', 's1 s2', '"'), ('lang', 'en', '')]), '>'), (E(None, id='i1', text='one\ntwo'), '>'), (E('em', classes=['k']), '^'),
+         (g.Group([(E('dt', classes=['t']), '+'), (E('dd', id='d'), '')], repeat=2), '+'), (E('custom', self_close=True, classes=['z']), '')],
+        [(E('p'), '>'), (E('em'), '>'), (E('q', self_close=True), '^^'), (E('section', attrs=[('hidden', None, ''), ('title', 'a b', '"')]), '>'), (E('i'), '')],
+    ]
+    k = ctx.seed
+    for st in fixed:
+        abbr = g.render(st)
+        tree = g.unroll(g.denote_stmt(st))
+        for ps in WRITE_SYNTAXES:
+            for w1 in WRITE_SYNTAXES:
+                for w2 in WRITE_SYNTAXES:
+                    k += 1
+                    ind = INDENTS[k % len(INDENTS)]
+                    ind2 = ind if k % 3 else INDENTS[(k + 3) % len(INDENTS)]
+                    configs, idx = [], []
+                    for c in (route_cfg(ps, ind), route_cfg(w1, ind), route_cfg(w2, ind2)):
+                        if c not in configs:
+                            configs.append(c)
+                        idx.append(configs.index(c))
+                    obj = 'fresh' if k % 4 == 0 else 'same'
+                    steps = [{'op': 'parse', 'how': PARSE_ROUTES[k % len(PARSE_ROUTES)], 'config': idx[0], 'object': obj},
+                             {'op': 'write', 'how': WRITERS[k % len(WRITERS)], 'config': idx[1], 'object': obj},
+                             {'op': 'write', 'how': WRITERS[(k // 3) % len(WRITERS)], 'config': idx[2], 'object': obj}]
+                    add(abbr, tree, configs, steps, 'fixed-trees-every-ordered-pair-of-writings')
+    # B. the generated abbreviations of the main stream under random sequences of calls
+    pool = [p for p in POOL if p[1]]
+    n = 1000 if ctx.tier == 'quick' else 16000
+    for _ in range(n):
+        abbr, tree, bucket = rng.choice(pool)
+        configs = []
+        for _c in range(rng.choice([1, 1, 2, 2, 3])):
+            syn = rng.choice(SYNTAXES + SYNTAXES + ['html']) if configs else rng.choice(SYNTAXES)
+            c = route_cfg(syn, rng.choice(INDENTS), rng.choice(ROUTE_EXTRA_OPTIONS) if rng.random() < 0.2 else None)
+            if c not in configs:
+                configs.append(c)
+        obj = lambda: 'fresh' if rng.random() < 0.3 else 'same'     # noqa
+        pick = lambda: rng.randrange(len(configs))                   # noqa
+        steps = [{'op': 'parse', 'how': rng.choice(PARSE_ROUTES), 'config': pick(), 'object': obj()}]
+        first = True
+        for _w in range(rng.choice([1, 2, 2, 2, 3, 3, 4])):
+            c = rng.random()
+            if c < 0.08:
+                steps.append({'op': 'parse', 'how': rng.choice(PARSE_ROUTES), 'config': pick(), 'object': obj()})
+                first = True
+            elif c < 0.2:
+                steps.append({'op': 'expand', 'how': rng.choice(ENTRY_POINTS), 'config': pick(), 'object': obj()})
+                continue
+            # the first writing of a tree mostly under the configuration it was parsed with (the plain two-step call)
+            ci = steps[-1]['config'] if first and rng.random() < 0.6 else pick()
+            steps.append({'op': 'write', 'how': rng.choice(WRITERS), 'config': ci, 'object': obj()})
+            first = False
+        add(abbr, tree, configs, steps, 'generated-trees-random-call-sequences')
+    return out
+
+
+def routes_stage(ctx, model):
+    """Oracle on every written result of every case.  The Coq model knows expand(abbr, config) only -- a tree that
+    outlives a call is not something it has: every written result is compared with the model's text for (abbr, the
+    configuration of THAT writing)."""
+    rcases = gen_routes(ctx)
+    wires, idx = [], []
+    for n, case in enumerate(rcases):
+        res = run_route(case)
+        ctx.count_eval()
+        bad = judge_route(case, res)
+        ctx.cover('C15routes:%s' % ('holds' if not bad else 'fails'))
+        if bad:
+            ctx.property_failure(routes_key(case), 'C15routes %r configs=%s calls=%s: %s' % (
+                case['abbr'], canon_cfg(case['configs']), ' ; '.join('%s:%s[%d]' % (s['op'], s['how'], s['config']) for s in case['steps']), bad),
+                {'component': 'C15routes', 'abbr': case['abbr'], 'configs': case['configs'], 'steps': case['steps'],
+                 'expect': case['expect'], 'impl': repr(res)[:800], 'why': bad})
+        if model is not None and not mentions_lorem(case['abbr'], {}):
+            for k, (st, r) in enumerate(zip(case['steps'], res)):
+                if st['op'] == 'parse' or r is None or r[0] in ('recursion', 'hang', 'no-tree'):
+                    continue
+                try:
+                    wires.append([2] + enc_config(case['configs'][st['config']]) + enc_str(case['abbr']))
+                    idx.append((n, k, r))
+                except NotModelled:
+                    ctx.cover('C15routes:not-modelled')
+    dis = 0
+    if wires:
+        from markup_util import decode_expand
+        for (n, k, r), w in zip(idx, model.run(wires)):
+            mo = decode_expand(w)
+            if mo != r:
+                dis += 1
+                if dis <= 5:
+                    case = rcases[n]
+                    ctx.say('DISAGREE C15routes %r %s\n  impl  %r\n  model(expand under the configuration of this writing) %r' % (
+                        case['abbr'], step_text(case, k), str(r)[:400], str(mo)[:400]))
+                    ctx.broken.append({'kind': 'correspondence', 'file': 'markup-C15routes', 'input': case['abbr'],
+                                       'config': canon_cfg(case['configs'][case['steps'][k]['config']]), 'step': step_text(case, k),
+                                       'impl': repr(r)[:300], 'model': repr(mo)[:300]})
+    c = ctx.cov['correspondence'].setdefault('markup_C15routes_every_writing_vs_model_expand', {'cases': 0, 'disagreements': 0})
+    c['cases'] += len(wires)
+    c['disagreements'] += dis
+    return rcases
+
+
 # model/implementation correspondence outside the oracle's domain: text-only nodes, snippets, numbering, whitespace in
 # class names, fields, and every output option the indent formatter reads
 FRAGS = ['div', 'p', 'ul', 'li', 'span', 'a', 'em', 'img', 'br', 'input', 'x', 'h$', '>', '>', '+', '+', '^', '(', ')', '*2', '*3',
@@ -1155,7 +1481,22 @@ RULE = ('abbreviations generated as an AST (elements with ids, classes, attribut
         'tree comparison with the indent string in force by the documented precedence (built-in tab < global type entry < global '
         'syntax entry < call options), restated in the harness. The Coq model takes one flat configuration: for this stream it is '
         'run on the flat configuration the layered one stands for (computed by the harness) and compared with the '
-        'implementation\'s output under the layered one; the layer merge itself is not modelled here.')
+        'implementation\'s output under the layered one; the layer merge itself is not modelled here. '
+        'Routes (stream C15routes): the two-step public interface. A case is a sequence of calls on one abbreviation: the tree is '
+        'obtained (markup_abbreviation(abbr, Config) / emmet.markup.parse / parse_markup_abbreviation(abbr) handed to '
+        'markup_abbreviation) under haml, pug, slim or html, then THE SAME TREE OBJECT is written 1-4 times (stringify_markup / '
+        'emmet.markup.stringify / the formatter function of the syntax called directly) as haml, pug, slim or html in any order, '
+        'under the same or another indent string (sometimes with output.newline / baseIndent / compactBoolean / attributeQuotes), '
+        'with a re-parse or a one-step call (expand(abbr, Config object), expand_markup) in between; a configuration is one Config '
+        'object reused for all its calls of the case or a fresh Config per call. Fixed trees (ids, classes, nameless div, class '
+        'attribute, attributes, multi-line text, self-closing leaf, repeated group): parsed under each of the 4 syntaxes x every '
+        'ordered pair of writings (4 x 4); the generated abbreviations of the main stream under random call sequences. Oracle: '
+        'every haml/pug/slim writing, the first and every later one, gives exactly the lines denoted by the abbreviation; every '
+        'html writing has the denoted (depth, name) element tree; the tree read off the indentation of a writing equals the tree '
+        'of every html writing of the same tree object. Non-trivial = a tree of at least two elements written at least twice. '
+        'The Coq model has no tree that outlives a call: each writing is compared with the model\'s expand(abbr, configuration of '
+        'that writing). A replay of this stream holds the whole call sequence (abbreviation, configurations, steps, denoted '
+        'lines) and is self-contained in a fresh process.')
 
 
 def spec_stage(ctx, spec, label, cases, impl):
@@ -1345,6 +1686,8 @@ def run(ctx):
     check_chunks(ctx, hsub)
     attach_meta(ctx, cases)
     lcases = layers_stage(ctx, model) if LAYERS_ON else []
+    if ROUTES_ON:
+        routes_stage(ctx, model)
     if ctx.violations:
         settle_replays(ctx, {'C15': cases, 'C15layers': lcases})
     tie = gen_tie(ctx)
@@ -1365,6 +1708,14 @@ def replay(ctx, obj):
     if 'abbr' not in rp:
         print('replay names a broken obligation, no input: %s' % str(rp)[:300])
         return 1
+    if rp.get('component') == 'C15routes':
+        res = run_route(rp)
+        for k, (st, r) in enumerate(zip(rp['steps'], res)):
+            print('%s, configuration %r -> %r' % (step_text(rp, k), rp['configs'][st['config']], 'tree' if r is None else r))
+        bad = judge_route(rp, res)
+        print('abbreviation %r' % rp['abbr'])
+        print('property %s' % ('FAILS: ' + bad if bad else 'holds on this sequence of calls'))
+        return 1 if bad else 0
     for c in rp.get('after') or []:
         judge_call(c)           # the earlier calls of the same process this failure depends on
     if rp.get('after'):
